@@ -189,7 +189,7 @@ def global_best(args):
         leaders = Archive(dominance=O.EpsilonDominance(epsilons=[0.1, 0.1]))
         members = []
         for j in range(nlead):
-            L = SW.IndividualSwarm([float(j)])
+            L = SW.IndividualSwarm([0.5] if args.get('shared_vectors') else [float(j)])
             L.costs_signed = common.sym_costs(ctx, 'lead%d' % j, m, True)
             if ctx.bool('lead%d_inf' % j):
                 L.features['crowding_distance'] = math.inf
@@ -208,7 +208,7 @@ def global_best(args):
             alg.archive = Archive(dominance=O.EpsilonDominance(epsilons=[0.1, 0.1]))
         swarm = []
         for j in range(nsw):
-            P = SW.IndividualSwarm([10.0 + j])
+            P = SW.IndividualSwarm([0.5] if args.get('shared_vectors') else [10.0 + j])   # e.g. particles clamped onto the same bound
             P.costs_signed = common.sym_costs(ctx, 'p%d' % j, m, True)
             swarm.append(P)
         alg.update_global_best(swarm)
@@ -239,6 +239,10 @@ def configs(tier):
     gb = [(1, 1, 1, 1), (1, 2, 1, 2), (2, 1, 2, 2), (2, 2, 2, 2), (2, 2, 1, 1)]
     if tier == 'thorough':
         gb += [(3, 2, 3, 2), (2, 3, 2, 2), (3, 3, 3, 2), (2, 3, 3, 1)]
+    for kind in kinds:
+        out.append({'name': 'gbest-%s-shared-position-vectors' % kind, 'task': 'global_best',
+                    'args': {'kind': kind, 'nlead': 2, 'nswarm': 2, 'N': 3, 'm': 2, 'shared_vectors': True},
+                    'weight': 10 ** 4, 'split': 48, 'engine': {'validate': 20}})
     for kind in kinds:
         for nlead, nsw, N, m in gb:
             if nlead > N:
